@@ -189,6 +189,7 @@ func (sm *SessionManager) GetSession(r *http.Request) (*SessionData, error) {
 	// Get session from pool.
 	sessionData := sm.sessionPool.Get().(*SessionData)
 	sessionData.request = r
+	sessionData.staleChunks = nil
 
 	var err error
 	sessionData.mainSession, err = sm.getOrNewSession(r, mainCookieName)
@@ -306,6 +307,10 @@ type SessionData struct {
 
 	// refreshMutex protects refresh token operations within this session instance.
 	refreshMutex sync.Mutex
+
+	// staleChunks holds chunk cookies of a previously stored token that were
+	// expired in memory only; Save deletes those the new token does not reuse.
+	staleChunks []*sessions.Session
 }
 
 // Save persists all parts of the session (main, access token, refresh token, and any chunks)
@@ -358,7 +363,48 @@ func (sd *SessionData) Save(r *http.Request, w http.ResponseWriter) error {
 		}
 	}
 
+	// Delete the chunk cookies of a previously stored, longer token that the
+	// current token does not overwrite; otherwise they would be appended to the
+	// new token's chunks when the session is read back.
+	expiredOptions := *options
+	expiredOptions.MaxAge = -1
+	for i, session := range sd.staleChunks {
+		if sd.isCurrentChunk(session) || containsSession(sd.staleChunks[:i], session) {
+			continue
+		}
+		session.Options = &expiredOptions
+		if err := session.Save(r, w); err != nil {
+			return fmt.Errorf("failed to delete stale token chunk session: %w", err)
+		}
+	}
+	sd.staleChunks = nil
+
 	return nil
+}
+
+// containsSession reports whether list holds the given session object.
+func containsSession(list []*sessions.Session, session *sessions.Session) bool {
+	for _, s := range list {
+		if s == session {
+			return true
+		}
+	}
+	return false
+}
+
+// isCurrentChunk reports whether the given chunk session belongs to the token currently stored.
+func (sd *SessionData) isCurrentChunk(session *sessions.Session) bool {
+	for _, s := range sd.accessTokenChunks {
+		if s == session {
+			return true
+		}
+	}
+	for _, s := range sd.refreshTokenChunks {
+		if s == session {
+			return true
+		}
+	}
+	return false
 }
 
 // Clear removes all session data associated with this SessionData instance.
@@ -637,6 +683,8 @@ func (sd *SessionData) expireAccessTokenChunks(w http.ResponseWriter) {
 			if err := session.Save(sd.request, w); err != nil {
 				sd.manager.logger.Errorf("failed to save expired access token cookie: %v", err)
 			}
+		} else {
+			sd.staleChunks = append(sd.staleChunks, session)
 		}
 	}
 }
@@ -661,6 +709,8 @@ func (sd *SessionData) expireRefreshTokenChunks(w http.ResponseWriter) {
 			if err := session.Save(sd.request, w); err != nil {
 				sd.manager.logger.Errorf("failed to save expired refresh token cookie: %v", err)
 			}
+		} else {
+			sd.staleChunks = append(sd.staleChunks, session)
 		}
 	}
 }
